@@ -39,7 +39,7 @@ def run(ctx):
     somes = [bi for bi, blk in enumerate(ef.blocks) for s in blk['s'] if s.get('rv', {}).get('k') == 'agg' and s['rv'].get('variant') == 'Some' and s.get('p', {}).get('l') == 0 and bi in ef.reachable_from(0)]
     ctx.anchor('R16.2', 'Some(..) return of Edict::from_integers', len(somes) == 1, ef.n)
     for bi in somes:
-      gs = guard_strings(ef, bi)
+      gs = guard_strings(ef, bi, forms=True)
       ctx.ob('R16.2', ef.n, 'Some only under ¬(output > tx.output.len())', any(re.match(r'^Gt\(.*output.*,Result::unwrap\(.*try_from\(Vec::len\(tx\.output\)\)\)\)==False$', g) for g in gs), f'{gs}', where(ef, ef.line))
   dec, _ = closure(F, ['ordinals::runestone::Runestone::decipher'])
   makers = set()
